@@ -24,6 +24,13 @@ class Container(_any.Any):
         raise NotImplementedError  # pragma: no cover
 
 
+def _type_signature(value: _any.Any) -> typing.Tuple[typing.Any, ...]:
+    """The type of the value; a set is parameterized by the type of its elements (sets are never empty)."""
+    if isinstance(value, Set):
+        return (type(value),) + _type_signature(next(iter(value)))
+    return (type(value),)
+
+
 class Set(Container):
     TYPE_NAME = "set"
 
@@ -35,7 +42,7 @@ class Set(Container):
         ) -> typing.Callable[["Set", "Set"], _O]:
             def wrapper(self: "Set", other: "Set") -> _O:
                 assert isinstance(self, Set) and isinstance(other, Set)
-                if self.element_type == other.element_type:
+                if _type_signature(self) == _type_signature(other):
                     return inferior(self, other)
                 raise _any.InvalidOperandError(
                     "The requested binary operator is defined only for sets "
@@ -55,8 +62,9 @@ class Set(Container):
             )
 
         element_types = set(map(type, list_of_elements))
-        if len(element_types) != 1:
+        if len(element_types) != 1 or len(set(map(_type_signature, list_of_elements))) != 1:
             # This also weeds out covariant sets, although our barbie-size type system is unaware of that.
+            # Nested sets are of the same type only if their elements are, so {{1}, {"a"}} is heterogeneous, too.
             raise _any.InvalidOperandError("Heterogeneous sets are not permitted")
 
         # noinspection PyTypeChecker
